@@ -118,7 +118,7 @@ def discharge(ob):
             else:
                 r, model, reason = _z3_attempt(ob["smt2"], budget, opts)
         except z3.Z3Exception as e:
-            r, model, reason = "unknown", None, "z3 exception: %s" % e
+            r, model, reason = "exception", None, "z3 exception: %s" % e
         res["attempts"].append("%s:%s" % (name, r))
         if r == "unsat":
             res.update(status="discharged", backend=name)
@@ -128,6 +128,8 @@ def discharge(ob):
             break
         if reason:
             res["reason"] = reason
+    if res["status"] == "unknown" and res["attempts"] and all("exception" in a for a in res["attempts"]):
+        res["status"] = "error"      # a tool failure is never reported as a violation
     res["seconds"] = round(time.time() - t0, 4)
     return res
 
